@@ -175,6 +175,9 @@ def clobber_case(sc):
         # the pre-existing files are the outputs of an earlier run of the tool itself, in the same process, into the same directory
         first = ["-a", ref["inputs"][0], "-p", ref["inputs"][1], "-o", d / f"x.1.{sc['out_fmt']}"] + (["--write-log"] if sc["log"] else ["--no-write-log"])
         run_inproc(first)
+    elif sc.get("same"):
+        for n in pre:
+            (d / n).write_bytes((Path(ref["dir"]) / "out" / n).read_bytes())
     else:
         for n in pre:
             (d / n).write_bytes(junk)
@@ -190,7 +193,7 @@ def clobber_case(sc):
             rc = rc or 98
     after = snapshot(d)
     after_n = snapshot(d, norm=[str(d)])
-    t = {"tid": sc["tid"], "cfg": sc["cfg"] + "/" + sc["in_fmt"] + "->" + sc["out_fmt"] + ("/log" if sc["log"] else "/nolog") + ("/empty-files" if sc.get("empty") else "") + ("/after-an-earlier-run" if sc.get("rerun") else ""), "outputs": outputs,
+    t = {"tid": sc["tid"], "cfg": sc["cfg"] + "/" + sc["in_fmt"] + "->" + sc["out_fmt"] + ("/log" if sc["log"] else "/nolog") + ("/empty-files" if sc.get("empty") else "") + ("/after-an-earlier-run" if sc.get("rerun") else "") + ("/same-content" if sc.get("same") else ""), "outputs": outputs,
          "pre": sc["pre"], "clobber": sc["clobber"], "exit": rc,
          "named": [i for i, n in enumerate(outputs, 1) if str(d / n) in text],
          "unchanged": [i for i, n in enumerate(outputs, 1) if n in before and after.get(n) == before[n]],
